@@ -103,6 +103,23 @@ def _h_multi(ctx, n, n_nan, ypat, labels, params, with_dev):
                     got = list(o[f"f_{ci}"])
                     ctx.require(col_equal(got, expected[ci]), "C12.differs-from-binary-carver",
                                 f"transform of a frame with {what}: column f_{ci} = {got!r} but BinaryCarver(same parameters) on 1[y={ci}] gives {expected[ci]!r}")
+        # C07 on the multiclass code path (its own _cast_features / per-class transform): repeated, subset / reordered and
+        # fit_transform outputs agree with the first output
+        gen = [c for c in out.columns if c != "f"]
+        again = mc.transform(X)
+        for c in gen:
+            ctx.require(col_equal(list(again[c]), list(out[c])), "C07.repeat-transform", f"MulticlassCarver: second transform of the same frame differs on {c}")
+        rev = mc.transform(X.iloc[::-1])
+        ctx.require(list(rev.index) == list(X.index)[::-1], "C07.index-columns", "MulticlassCarver: output index differs from the frame's index")
+        one = mc.transform(X.iloc[[0]])
+        for c in gen:
+            ctx.require(col_equal(list(rev[c])[::-1], list(out[c])), "C07.row-purity", f"MulticlassCarver: transforming the rows in reverse order changes their labels on {c}")
+            ctx.require(col_equal(list(one[c]), list(out[c])[:1]), "C07.row-purity", f"MulticlassCarver: the first row alone is labelled {list(one[c])!r} on {c}, {list(out[c])[:1]!r} inside the full frame")
+        mc2 = MulticlassCarver(quantitative_features=["f"], copy=True, **params)
+        out_ft = mc2.fit_transform(X, y, **fit_kw)
+        ctx.require(sorted(out_ft.columns) == sorted(out.columns), "C07.fit-transform-differs", f"MulticlassCarver.fit_transform columns {sorted(out_ft.columns)} != fit+transform {sorted(out.columns)}")
+        for c in gen:
+            ctx.require(col_equal(list(out_ft[c]), list(out[c])), "C07.fit-transform-differs", f"MulticlassCarver.fit_transform differs from fit+transform on {c}")
     return dict(counters={"ok": 1}, sample=dict(ypat=ypat, labels=labels, cols=list(out.columns)), result=dict(cols=sorted(out.columns)))
 
 
@@ -260,6 +277,15 @@ def obligations(tier):
             twin_every=9, budget_s=6.0,
         )
     ]
+
+
+def obligation_c07(tier):
+    """The multiclass harness as an obligation of C07 (reduced job list)."""
+    full = obligations(tier)[1]
+    step = max(1, len(full.jobs) // (12 if tier == "quick" else 48))
+    return Obligation(name="O7.4 MulticlassCarver: fit_transform == fit+transform, repeated / reordered / single-row transforms agree, inputs untouched (own casting and per-class transform code path)",
+                      harness=h_multi, jobs=full.jobs[::step], encodes=full.encodes, rebindings=full.rebindings, bounds=full.bounds + "; every %d-th job of O12.1" % step,
+                      outside=full.outside, twin_every=5, budget_s=6.0)
 
 
 ASSUMPTIONS = ["dev frame = the training rows reversed (same distribution)"]
